@@ -12,6 +12,19 @@ CHECKS = {
              "Provenance beyond the 5 enumerated classes rests on the layer-B correspondence.",
         technique="Lean 4 proof by kernel evaluation (decide +kernel) over a table regenerated from the code",
         design="6 C02"),
+    "C01": dict(
+        text="Lean theorems, for every store and every output list (induction over the iterative DFS and the function worklist of the "
+             "compile model): all emitted tables are closed under operand references, file each id once, consist of store entries, "
+             "contain the designated output / return operations, and are acyclic when operand ids are smaller than referring ids; "
+             "`decide +kernel` over the AST schema regenerated from ast_util.py (T6) shows every operand key exported by to_mir is a child "
+             "the traversal follows. The compile model is tied to compiler_frontend.py by a differential run (K1/K2) on generated programs; "
+             "a Python oracle (closed / acyclic / scoped / unique resolution) runs on every real MIR.",
+        note="Trusted: Lean kernel; T6 sentinel evaluation (straight-line bodies checked syntactically); the layer-B/Compile model is "
+             "hand-written and sampled against the real code, so assurance for the real compiler is proof about the model + sampling of "
+             "the tie. Unique resolution of function/input/literal references and scoping are currently decided by the oracle and the "
+             "Lean Bool spec evaluated on every model MIR, not yet by a theorem.",
+        technique="Lean 4 proof by induction over the traversal + kernel-decided schema table, model tied by differential testing",
+        design="6 C01"),
     "C06": dict(
         text="Lean theorems for all Int / Bool operands about the folding term regenerated syntactically (T2) from the lambdas, helper "
              "CONSTANT-cases and literal constructors of scalar_types.py: exact +,-,*,**,<<,>>, comparisons, connectives, and the "
